@@ -54,19 +54,19 @@ theorem isHexFloat_digits (s : Str) (h : AllDigits s) : isHexFloat s = false := 
 
 /-- decimal conversion of a non-empty run of digits: the positional value, as an integer over 1 -/
 theorem dDecimal_digits (sg : Nat) (ds : Str) (h : AllDigits ds) (hne : ds ≠ []) :
-    dDecimal sg ds = sg + dOfRat (decVal ds) 1 := by
+    dDecimal sg ds = sg + dOfNat (decVal ds) := by
   have hv : digitsVal (ds ++ []) 0 = decVal ds := by
     rw [digitsVal_all ds h [] (by intro c hc; cases hc) 0]; omega
   have hemp : ds.isEmpty = false := by cases ds <;> simp at hne ⊢
   simp only [dDecimal, takeDigits_all ds h, hemp, Bool.false_and, Bool.false_eq_true, if_false, expPart, List.length_nil,
     hv]
   by_cases h0 : decVal ds = 0
-  · simp [h0, dOfRat]
+  · simp [h0, dOfRat, dOfNat]
   · have : (decVal ds == 0) = false := by simpa using h0
     simp [this]
 
 theorem dOfStrMag_digits (sg : Nat) (ds : Str) (h : AllDigits ds) (hne : ds ≠ []) :
-    dOfStrMag sg ds = sg + dOfRat (decVal ds) 1 := by
+    dOfStrMag sg ds = sg + dOfNat (decVal ds) := by
   cases ds with
   | nil => exact absurd rfl hne
   | cons c t =>
@@ -75,9 +75,9 @@ theorem dOfStrMag_digits (sg : Nat) (ds : Str) (h : AllDigits ds) (hne : ds ≠ 
       isHexFloat_digits _ h, Bool.false_eq_true, if_false]
     exact dDecimal_digits sg _ h hne
 
-/-- `atof` of `ws* sign? digit+`: sign bit plus the integer conversion of the denoted magnitude -/
+/-- `atof` of `ws* sign? digit+`: sign bit plus the conversion `dOfNat` of the denoted magnitude (any number of digits) -/
 theorem dOfStr_numeral {ws : Str} {sg : Sign} {ds : Str} (h : NumSyntax ws sg ds []) (hne : ds ≠ []) :
-    dOfStr (ws ++ sg.str ++ ds) = (if sg.neg then 2 ^ 63 else 0) + dOfRat (decVal ds) 1 := by
+    dOfStr (ws ++ sg.str ++ ds) = (if sg.neg then 2 ^ 63 else 0) + dOfNat (decVal ds) := by
   unfold dOfStr
   rw [List.append_assoc, dropWhile_spaces _ _ h.space]
   cases sg with
